@@ -33,7 +33,12 @@ RECURSIVE NodeFormsOK(_)
 NodeFormsOK(f) == CASE f.k = "sym" -> IsAbs(G, f.s) /\ Recursive(G, f.s)
                     [] f.k = "list" -> FALSE
                     [] f.k = "ann" /\ f.mh.k = "ListSize" -> f.mh.lo >= 1 /\ NodeFormsOK(f.es[1].es[1])
-                    [] f.k \in {"tuple", "union", "ann"} -> \A i \in DOMAIN f.es : NodeFormsOK(f.es[i])
+                    \* a union that mixes node alternatives with plain values: choosing the value ends the branch
+                    \* early although a node still fits, so "all branches end at the maximum depth" does not say
+                    \* which of the two a full program takes; the clause is not defined there
+                    [] f.k = "union" -> /\ \A i \in DOMAIN f.es : NodeFormsOK(f.es[i])
+                                        /\ \A i, j \in DOMAIN f.es : (FormSyms(f.es[i]) = {}) = (FormSyms(f.es[j]) = {})
+                    [] f.k \in {"tuple", "ann"} -> \A i \in DOMAIN f.es : NodeFormsOK(f.es[i])
                     [] OTHER -> TRUE
 FullDefined == /\ \A c \in Reachable(G) : IsAbs(G, c) => Recursive(G, c)        \* "every abstract type is recursive"
                /\ \A c \in Reachable(G) : IsAbs(G, c) \/ \A i \in DOMAIN Fields(G, c) : NodeFormsOK(Fields(G, c)[i].f)
